@@ -56,12 +56,10 @@ structure Line where
   tgtMask : List Bool
 
 def mkExt (l : Line) : Ext Rat where
-  lin := fun op _ v =>
-    match op with
-    | .crop true _ =>
-        if l.ch = 0 then v else
-          { v with data := cropHW (v.nc * v.ns) l.h l.w v.stride l.ch l.cw v.data }
-    | _ => v
+  lin := fun _ _ v => v
+  crop := fun center _ v =>
+    if !center || l.ch = 0 then v else
+      { v with data := cropHW (v.nc * v.ns) l.h l.w v.stride l.ch l.cw v.data }
   mask := fun src _ _ _ _ _ => match src with | .sampling => l.mask | .acs => l.acs
   split := fun input _ _ _ => if input then l.inMask else l.tgtMask
   eps := l.eps
@@ -136,11 +134,11 @@ def opPipeline (gs : List (List Int)) : String :=
 
 /-- a single primitive on explicit operands: `prim code | nc ns cplx | data | nc ns cplx | data …` -/
 def opPrim (code : Int) (aux : List Int) (vals : List (Val Rat)) : String :=
-  let X : Ext Rat := { lin := fun _ _ v => v, mask := fun _ _ _ _ _ _ => [], split := fun _ _ _ _ => [],
+  let X : Ext Rat := { lin := fun _ _ v => v, crop := fun _ _ v => v, mask := fun _ _ _ _ _ _ => [], split := fun _ _ _ _ => [],
                        eps := (aux.getD 0 0 : Rat) / (aux.getD 1 1 : Rat), kOf := fun _ => (aux.getD 2 1).toNat,
                        padCoilsTo := (aux.getD 3 0).toNat, espirit := fun v => v }
   let op : Option Op := match code with
-    | 0 => some .applyMask | 1 => some .applyPadding | 2 => some .sumAbs | 3 => some (.threshold thrCurrent)
+    | 0 => some .applyMask | 1 => some .applyPadding | 2 => some .sumSlices | 3 => some (.threshold thrCurrent)
     | 4 => some .rss | 5 => some .safeDiv | 6 => some .unitMap | 7 => some .kthModulus | 8 => some .maxModulus
     | 9 => some .sumCoils | 10 => some .modulus | 11 => some .senseCombine | 12 => some .padCoils
     | _ => none
@@ -176,7 +174,7 @@ def parseStore : List (List Int) → Option (Store Rat)
 
 /-- one transform class on an explicit sample: `stage code a b | eps_num eps_den k padTo | (key nc ns cplx | data)*` -/
 def opStage (hd aux : List Int) (s : Store Rat) : String :=
-  let X : Ext Rat := { lin := fun _ _ v => v, mask := fun _ _ _ _ _ _ => [], split := fun _ _ _ _ => [],
+  let X : Ext Rat := { lin := fun _ _ v => v, crop := fun _ _ v => v, mask := fun _ _ _ _ _ _ => [], split := fun _ _ _ _ => [],
                        eps := (aux.getD 0 0 : Rat) / (aux.getD 1 1 : Rat), kOf := fun _ => (aux.getD 2 1).toNat,
                        padCoilsTo := (aux.getD 3 0).toNat, espirit := fun v => v }
   let a := hd.getD 1 0
